@@ -14,9 +14,9 @@ an independent WHATWG-style classifier (what a browser does: strip C0/space, dro
 * slash decorators and static-directory redirects: Location must be *path-absolute* (one ``/`` followed
   by neither ``/`` nor ``\\``), never scheme-qualified or protocol-relative;
 * documented behaviour of the decorators for ordinary paths (one leading slash): ``@removeslash`` on a
-  path ending in ``/`` answers 301 with Location == path without its trailing slashes (+ ``?query``
-  unchanged); ``@addslash`` on a path not ending in ``/`` answers 301 with Location == path + ``/``
-  (+ ``?query``); a static directory request without trailing slash redirects to path + ``/``;
+  path ending in ``/`` answers 301 whose Location path == path without its trailing slashes; ``@addslash`` on
+  a path not ending in ``/`` and a static directory request without trailing slash: Location path == path +
+  ``/``; the query string may be carried over unchanged or left out (not part of the statement);
 * ``@authenticated``: 302 whose Location is exactly the configured login_url when that carries a query,
   else login_url, optionally followed by ``?next=`` + one well-formed percent-encoded value (its content is
   not part of the statement and only labelled).
@@ -52,6 +52,12 @@ Sensitivity (scratch copies, quick tier, seed 1):
     HTTP/1.0, 1.0 without Host, 1.0 and 1.1 with "Host: evil.example", 1.0 keep-alive) in the exploration and, for
     every redirect kind (both decorators x patterns, three static mounts, three login kinds), in the grid.
 Corrections:
+  * the exact-target clause compared the whole Location, i.e. it pinned whether the query string is carried over
+    (required for the decorators, forbidden for the static-directory redirect).  Neither the statement nor the
+    docstrings fix that; a tree whose static redirect keeps the query (/dir?x=1 -> /dir/?x=1) was reported as
+    C28.redirect_target_differs.  Now only the PATH component must equal the expected path; the query may be absent
+    or equal to the request's query for all three kinds (labels query_carried / query_dropped), anything else is
+    C28.redirect_query_differs.  The off-site clauses are unchanged (only the start of Location matters).
   * the check used to demand next == the exact request URI (relative login) / full URL (absolute login).  The
     statement only says that @authenticated redirects "only to the configured login URL"; a tree that collapses the
     leading "//" or "/\\" of the URI before putting it into next= (arguably safer) was reported as
@@ -331,14 +337,18 @@ def evaluate(route, method, target, ver="1.1"):
         return problem("C28.path_redirect_status", {"code": r.code})
     # documented exact target for ordinary paths (exactly one leading slash)
     if not re.match(r"[/\\]{2}", path):
-        if route.startswith("rs_"):
-            want = path.rstrip("/") + ("?" + query if query else "")
-        elif route.startswith("as_"):
-            want = path + "/" + ("?" + query if query else "")
+        want_path = path.rstrip("/") if route.startswith("rs_") else path + "/"
+        loc_path, qmark, loc_query = loc.partition("?")
+        if loc_path != want_path:
+            return problem("C28.redirect_target_differs", {"want_path": want_path})
+        # The statement (and the decorators' docstrings) say nothing about the query string: it may be carried
+        # over unchanged or left out (EITHER, labelled); anything else would be a different target.
+        if not qmark:
+            labels.add("query_dropped" if query else "no_query")
+        elif loc_query == query:
+            labels.add("query_carried")
         else:
-            want = path + "/"
-        if loc != want:
-            return problem("C28.redirect_target_differs", {"want": want})
+            return problem("C28.redirect_query_differs", {"want_query": query})
         labels.add("exact_target_checked")
     return labels, None
 
